@@ -4,6 +4,7 @@ import numpy as np
 from vp.registry import contract
 from . import builders as B
 from .c04 import pwa_setup, tps_coefficients_contract, distinct, cross2
+from .state import state_of, compare_states
 from .c08 import ALIGN_CFGS, construct, clouds, non_degenerate
 
 TRUSTED = [
@@ -33,6 +34,16 @@ def aligned_source_and_error(ctx, cls, d, opts):
         diff = np.asarray(tgt.points) - np.asarray(al.points)
         ctx.check_eq('alignment_error^2==sum-of-squares', err * err, np.sum(diff * diff), tol=1e-6)
         ctx.check('alignment_error>=0', err >= 0)
+        # inspecting an alignment (its inverse, a copy, its queries) does not change it
+        first = a.apply(np.asarray(src.points))
+        before = state_of(a)
+        if cls in ('ThinPlateSplines', 'PiecewiseAffine'):
+            a.pseudoinverse()     # (homogeneous family: receiver-untouched is a clause of C04; symbolic inverse of a fitted 3-D matrix explodes)
+        a.copy()
+        a.aligned_source()
+        a.alignment_error()
+        compare_states(ctx, 'inspection-leaves-the-alignment-unchanged', state_of(a), before)
+        ctx.check_eq('same-map-after-inspection', a.apply(np.asarray(src.points)), first)
         bad_n = S.PointCloud(ctx.reals('bn', (src.n_points + 1, d)))
         bad_d = S.PointCloud(ctx.reals('bd', (src.n_points, d + 1)))
         ctx.check_true('reject/other-n_points', ctx.raises(ValueError, lambda: construct(ctx, cls, src, bad_n, opts)))
